@@ -1081,6 +1081,8 @@ impl Checker
                         if !earlier.is_empty()
                         {
                             self.viol("C12", format!("delivery {id} to system {s} started before earlier deliveries {:?} from the same sender {:?}", earlier, sender));
+                            // C09: commands queued by one run take effect in the order queued (also when postponed)
+                            self.viol("C09", format!("command {id} for system {s} took effect before commands {:?} that the same sender {:?} queued earlier for the same system", earlier, sender));
                         }
                         let same: usize = self.deliveries.values()
                             .filter(|x| x.sys == Some(s) && x.sender == Some(sender)).count();
